@@ -145,9 +145,11 @@ class GnssUBlox(UbxServerBase_):
                             self._parse_version(data_map)
                         elif msg_class == 'DEVICES':
                             self._parse_devices(data_map)
-                except (json.decoder.JSONDecodeError, RecursionError):
-                    # Decoding error will happen if NMEA or other
-                    # data is received here
+                except (ValueError, RecursionError):
+                    # Decoding error (JSONDecodeError is a ValueError) will happen
+                    # if NMEA or other data is received here. json.loads() also
+                    # raises a plain ValueError for numbers it refuses to convert
+                    # (more digits than the interpreter's integer string limit).
                     pass
 
         except UnicodeDecodeError:
